@@ -14,8 +14,8 @@ RULE = ("streams = garbage prefix containing 0..5 false sync bytes (0x47 followe
         "data-with-error underlying readers, with io.EOF or a reader error as terminal error; all 4-byte header classes "
         "(sync/non-sync x AFC x PID class) at offsets 0..4 are enumerated completely; the same streams as read scripts "
         "(chunks of 1,2,3,5,7,16,17,47 bytes, random cuts, one chunk; EOF or error with or after the last data) through the "
-        "bufio model and the real bufio.Reader with sizes 0(=16),16,17,20,32,188,4096 (op io.syncb); scripts with zero-length "
-        "reads and io.ErrNoProgress as fidelity cases; non-trivial = the stream contains at least one 0x47 (the unread/peek "
+        "bufio model and the real bufio.Reader with sizes 0(=16),16,17,20,32,188,4096 (op io.syncb), also with zero-length "
+        "reads interleaved; 99/100/101 consecutive zero-length reads (io.ErrNoProgress) as fidelity cases; non-trivial = the stream contains at least one 0x47 (the unread/peek "
         "path is taken)")
 EXHAUSTIVE = False
 EXHAUSTIVE_NOTE = ("the header classes (first byte 0x47/other x AFC 0..3 x PID in {0,3,4,5,15,16,0x1fff}) x offset 0..4 x false-sync "
@@ -26,7 +26,8 @@ ASSUMPTIONS = [
     "error when fewer than 4 bytes remain; UnreadByte succeeds after a successful ReadByte; buffer size >= 16 so "
     "ErrBufferFull cannot occur); the oracle is independent of buffer size and fragmentation, goexec varies both",
     "the oracle contract is PROVED of a transcription of bufio.Reader (Model/Bufio.v: fill, readErr, ReadByte, UnreadByte, "
-    "Peek of Go 1.23) for every buffer size and every read script without (0, nil) reads (C16_sync_over_bufio); that "
+    "Peek of Go 1.23) for every buffer size and every read script with fewer than 100 zero-length reads in a row "
+    "(C16_sync_over_bufio); that "
     "transcription (incl. Read + io.ReadFull for the bytes read after Sync) is compared with the real bufio.Reader on every run (io.syncb), also on scripts with zero-length reads",
     "underlying io.Reader: finite script, sticky error, never more than len(p) bytes per Read (as in C18)",
     "int64 offset does not overflow (streams shorter than 2^63 bytes)",
@@ -174,9 +175,9 @@ def gen_bufio(rng, tier):
         frag = rng.choice(BFRAGS); term = rng.choice(BTERMS); size = rng.choice(BSIZES)
         out.append(mkb(bscript(rng, data, frag, term), size, "bufio-%s" % (frag if isinstance(frag, str) else "n")))
         if k % 5 == 0:
-            # zero-length reads ((0, nil) results) are outside the refinement theorem's hypothesis: fidelity
-            out.append(mkb(bscript(rng, data, frag, term, empties=0.3), size, "fidelity-bufio-empty-reads", decides=False))
-    # io.ErrNoProgress after 100 consecutive empty reads
+            # zero-length reads ((0, nil) results), fewer than 100 in a row: inside the refinement theorem
+            out.append(mkb(bscript(rng, data, frag, term, empties=0.3), size, "bufio-empty-reads"))
+    # io.ErrNoProgress after 100 consecutive empty reads: outside the theorem's hypothesis (fidelity)
     for m in (99, 100, 101):
         sc = [(b"\x11\x22", 0)] + [(b"", 0)] * m + [(bytes([SYNC, 0, 0, 0x10]) + bytes(184), 0)]
         out.append(mkb(sc, 16, "fidelity-bufio-noprogress", decides=False))
